@@ -322,6 +322,13 @@ func checkCollector(c collectorCase) (collects int, full bool, v *verdict) {
 				counters[o.Counter].Incr(o.Key)
 			}
 			accessed[o.Key] = true
+		case "flood":
+			// Times distinct keys, one access each, on one backend's counter (a scan over a key range)
+			for j := 0; j < o.Times; j++ {
+				k := fmt.Sprintf("%s:%d", o.Key, j)
+				counters[o.Counter].Incr(k)
+				accessed[k] = true
+			}
 		case "collect":
 			held := col.HotKeys() // a reader got the report just before the collection and renders it during / after it
 			probe = probeHeld(where, held)
@@ -375,6 +382,10 @@ func TestCollectorModel(t *testing.T) {
 		if rapid.Bool().Draw(t, "small") {
 			capa = 1 + capa%5
 		}
+		big := rapid.IntRange(0, 7).Draw(t, "bigcap") == 0
+		if big {
+			capa = rapid.SampledFrom([]int{127, 128, 129, 200, 254, 255}).Draw(t, "cap2") // up to the largest capacity the type allows
+		}
 		c := collectorCase{Capacity: capa, Counters: rapid.IntRange(1, 4).Draw(t, "counters")}
 		pool := rapid.IntRange(1, 2*capa+4).Draw(t, "pool")
 		n := rapid.IntRange(1, 80).Draw(t, "n")
@@ -388,6 +399,9 @@ func TestCollectorModel(t *testing.T) {
 				c.Ops = append(c.Ops, cop{Op: "evict"})
 			case x == 5:
 				c.Ops = append(c.Ops, cop{Op: "free", Counter: rapid.IntRange(0, c.Counters-1).Draw(t, "ci")})
+			case x == 6 && (big || rapid.IntRange(0, 3).Draw(t, "floodsmall") == 0):
+				c.Ops = append(c.Ops, cop{Op: "flood", Counter: rapid.IntRange(0, c.Counters-1).Draw(t, "fci"), Key: fmt.Sprintf("f%d", i),
+					Times: rapid.IntRange(1, 2*capa+10).Draw(t, "floodn")})
 			default:
 				times := rapid.IntRange(1, 6).Draw(t, "times")
 				if rapid.IntRange(0, 5).Draw(t, "many") == 0 {
